@@ -54,6 +54,17 @@ check("C08", "exploration", "property-based testing (Hypothesis): generated univ
       "Trusted: vp/refsearch.py glob matcher and unfolding. Open known finding: '[seq]' is an fnmatch character class in glob2re (tolerated only with that exact signature).",
       "DESIGN.md section 2, C08")
 
+check("C05", "exploration", "property-based testing (Hypothesis): round trip, purity, injectivity map and differential against an independent template rendering",
+      "Generated concrete Sids with collision-seeking free values are mapped to paths in every configuration (either configuration touched first) and back; "
+      "a run-wide path -> uri map checks injectivity; relative paths are compared across configurations; the path text is compared with an independent rendering of the raw path template.",
+      "Trusted: vp/confmodel.py PathModel (template tokenisation, value mapping). Free values '', '.', '..' excluded.",
+      "DESIGN.md section 2, C05")
+check("C06", "exploration", "property-based testing (Hypothesis) with structured path mutations and a validity predicate",
+      "Valid paths are mutated (desynchronised duplicate fields, changed literals, dropped / duplicated / added components, root switches, trailing characters) and "
+      "resolved; any exception is a violation, and a typed result must own exactly the given path.",
+      "Validity predicate only; completeness is covered by C05.",
+      "DESIGN.md section 2, C06")
+
 NOT_APPLICABLE = {
 }
 
